@@ -84,6 +84,15 @@ func c01RouteEval(f []string) (string, []string) {
 	if strings.ToLower(host) != host {
 		tags = append(tags, "req-upper")
 	}
+	for i := 0; i < len(host); i++ {
+		if host[i] >= 0x80 {
+			tags = append(tags, "trivial-non-ascii-host")
+			break
+		}
+	}
+	if strings.HasPrefix(path, "/.well-known/acme-challenge/") {
+		tags = append(tags, "trivial-acme-path")
+	}
 	switch {
 	case len(ran) == 0:
 		tags = append(tags, "notfound")
@@ -265,6 +274,18 @@ func c01RouteGen(g *hx.Gen) {
 		for _, h := range []string{"zzz", "a.com", "fa.test", "fb.test"} {
 			c01Emit(g, sites, h, "/foo", 1)
 		}
+	}
+	// outside the judged domain, still compared with the model: lower-case non-ASCII hosts (byte-wise
+	// routing; upper-case non-ASCII letters would need Unicode case folding, which the model does not have)
+	// and ACME HTTP-challenge paths (no issuer is configured here, so they route like any other path)
+	for _, h := range []string{"\u00e9.com", "\u65e5\u672c.jp", "a.\u00e9.com"} {
+		for _, rh := range []string{h, h + ":8080", "x." + h, "a.com"} {
+			c01Emit(g, []c01Site{mk(h), mk("*." + h + "/foo"), mk("a.com")}, rh, "/foo/bar", 1)
+		}
+	}
+	for _, p := range []string{"/.well-known/acme-challenge/tok", "/.well-known/acme-challenge/", "/.well-known/acme-challenge"} {
+		c01Emit(g, []c01Site{mk("a.com"), mk("a.com/.well-known"), mk("")}, "a.com", p, 1)
+		c01Emit(g, []c01Site{mk("a.com")}, "zzz", p, 2)
 	}
 	// seeded random: up to 12 sites out of the alphabet with random spellings and requests aimed at them
 	N := 6000
